@@ -126,6 +126,8 @@ func GroupSeedSig(height uint64, content []byte) []byte {
 type KeyManager struct {
 	Reg *Registry
 	Me  primitives.MemberId
+	// EmptyShares: this key manager's random-seed shares have length 0 (a degenerate but legal KeyManager)
+	EmptyShares bool
 	// counters for oracles
 	VerifyCalls int
 }
@@ -147,6 +149,9 @@ func (k *KeyManager) VerifyConsensusMessage(blockHeight primitives.BlockHeight, 
 }
 
 func (k *KeyManager) SignRandomSeed(ctx context.Context, blockHeight primitives.BlockHeight, content []byte) primitives.RandomSeedSignature {
+	if k.EmptyShares {
+		return primitives.RandomSeedSignature{}
+	}
 	return k.Reg.Sign(KindSeed, k.Me, uint64(blockHeight), content)
 }
 
